@@ -378,7 +378,25 @@ def loopcursor(ctx):
     _expect(ctx, "R40.loop-cursor", c, ["loopcursor_bad"], ["loopcursor_good"])
 
 
-ALL = {"masked_tail": masked_tail, "loopcursor": loopcursor, "scaledext": scaledext, "varint": varint, "threadcount": threadcount, "sizekind": sizekind, "lenext": lenext, "xxh": xxh, "signedoff": signedoff, "reqalloc": reqalloc, "fieldfit": fieldfit, "stalefield": stalefield, "hidden": hidden, "region_args": region_args, "widen": widen, "progress": progress, "lazyinit": lazyinit, "lanes": lanes, "atomic": atomic, "feasible": feasible, "endian": endian, "units": units, "alloc": alloc, "status": status, "ownership": ownership, "cursor": cursor, "arrays": arrays,
+def bitfield(ctx):
+    from .rules import bitfield as bf
+    from .rules import cursor
+    P = program()
+    good, bad = P.fn("ctl_get_bits_good"), P.fn("ctl_get_bits_bad")
+    eg, eb = bf.helper_extent(P, good), bf.helper_extent(P, bad)
+    ctx.control("R43.bitfield proves the extent of the good control helper", eg is not None and eg[:3] == (0, 1, 2), repr(eg))
+    ctx.control("R43.bitfield refuses the control helper that reads one byte too far", eb is None, repr(eb))
+    for name, want in (("bitfield_good", True), ("bitfield_bad_guard", False)):
+        fn = P.fn(name)
+        pairs = [p for p in cursor.find_pairs(fn) if p.style == "idx"]
+        call = [c for c in fn.calls() if c.callee == "ctl_get_bits_good"]
+        got = None
+        if pairs and call and eg is not None:
+            got = bf.call_site(P, fn, call[0], eg, pairs[0].cursor, pairs[0].limit, cursor.lvalue_text)[0]
+        ctx.control("R43.bitfield call site %s" % name, got is want, repr(got))
+
+
+ALL = {"bitfield": bitfield, "masked_tail": masked_tail, "loopcursor": loopcursor, "scaledext": scaledext, "varint": varint, "threadcount": threadcount, "sizekind": sizekind, "lenext": lenext, "xxh": xxh, "signedoff": signedoff, "reqalloc": reqalloc, "fieldfit": fieldfit, "stalefield": stalefield, "hidden": hidden, "region_args": region_args, "widen": widen, "progress": progress, "lazyinit": lazyinit, "lanes": lanes, "atomic": atomic, "feasible": feasible, "endian": endian, "units": units, "alloc": alloc, "status": status, "ownership": ownership, "cursor": cursor, "arrays": arrays,
        "recursion": recursion, "narrowing": narrowing, "skeleton": skeleton, "must_pass": must_pass}
 
 
